@@ -32,7 +32,7 @@ def run(ctx, replay=None):
     env = dict(os.environ, TSAN_OPTIONS='halt_on_error=0 exitcode=66 report_signal_unsafe=0')
     concrete = {}
     runs = 0
-    for kind in ['twotables', 'bounded', 'vector', 'list', 'tree', 'hash', 'listtbl']:
+    for kind in ['handoff', 'twotables', 'bounded', 'vector', 'list', 'tree', 'hash', 'listtbl']:
         for rep in range(3 if quick else 20):
             T, K = (3, 120) if rep % 2 == 0 else (4, 60)
             sd = ctx.seed * 100 + rep
@@ -40,6 +40,8 @@ def run(ctx, replay=None):
                 if which == 'tsan' and rep >= (2 if quick else 6):
                     continue
                 args = [kind, str(T), str(K), str(sd)]
+                if kind == 'handoff':             # list / vector in turn, operations, seed: consecutive operations from different threads
+                    args = [kind, str(rep % 2), str(3000 if quick else 40000), str(sd)]
                 if kind == 'bounded':             # T threads, rounds, limit: one place free, all threads add at once
                     args = [kind, '4', str(400 if quick else 3000), str(2 + rep % 3)]
                 rc, o, er = ctx.run([e] + args, timeout=300, env=env)
@@ -63,7 +65,7 @@ def run(ctx, replay=None):
                     if ctx.report('race', sig, 'data race on %s state in %s' % (kind, sig['function']),
                                   {'cmd': '%s %s %d %d %d (ThreadSanitizer build)' % ('h_conc', kind, T, K, sd), 'report': txt[:3000]}):
                         concrete[kind] = True
-                elif rc != 0 and not (rc == 66 and benign and o.decode('latin1').strip().endswith(tuple(['OK %s' % kind, 'OK %s T=%d K=%d' % (kind, T, K)]))):
+                elif rc != 0 and not (rc == 66 and benign and o.decode('latin1').strip().endswith(tuple(['OK %s' % kind, 'OK %s T=%d K=%d' % (kind, T, K), 'OK handoff']))):
                     line = (o.decode('latin1').strip().splitlines() or ['(no output, exit %d)' % rc])[-1]
                     sig = {'container': kind, 'observed': 'not-linearizable' if line.startswith('FAIL') else 'crash'}
                     if ctx.report('schedule', sig, 'concurrent run on %s: %s' % (kind, line[:200]),
